@@ -156,7 +156,7 @@ class Consumer:
 
 def _norm(v, ms_keys=False):
     if isinstance(v, Decimal):
-        return str(v.normalize()) if v == v.to_integral() else str(v)
+        return format(v.normalize(), 'f') if v.is_finite() else str(v)   # numeric value, not the lexical form
     if isinstance(v, float):
         return round(v * 1000)  # timestamps: wire resolution 1 ms
     return v
